@@ -22,6 +22,7 @@ sequence; private-state or machine-only disagreement is drift.
 """
 import json, os, re, sys, threading, zlib
 from . import common as C
+from . import c20_helpers2 as H2
 
 PID = "C20"
 FAILURE_TRUNC = "append-not-preserved"
@@ -884,6 +885,9 @@ def run(replay=None):
     dbg("recorded", nreal, "traces", sum(len(x) for x in traces), "events", round(time.time() - t0, 1))
     bad_ids = rnd.sample(range(nreal), 40)
     traces += [corrupt(traces[j], rnd) for j in bad_ids]
+    # additional family (not part of the property): CachedFunction, Stopwatch, ProgressBar, NormalizeData
+    traces2 = C.pmap(H2.record2, H2.rand_plans(C.rng(22), 3000 if thorough else 400))
+    dbg("recorded family 2", len(traces2), round(time.time() - t0, 1))
     # ---- 1, 2, 3b, 4: the TLC runs; quick: all in parallel, thorough: the history partitions one after the other
     res = {}
 
@@ -898,7 +902,9 @@ def run(replay=None):
     th = [threading.Thread(target=job, args=("table", run_mc, "table", True, 0, rows, thorough, TABLE_INV), kwargs=dict(workers=q, coverage=thorough)),
           threading.Thread(target=job, args=("atomicpt", run_mc, "atomicpt", True, 0, 3, False, ["AtomicPT"]), kwargs=dict(workers=1, machines=["pt"])),
           threading.Thread(target=job, args=("atomicrc", run_mc, "atomicrc", True, 0, 3, False, ["AtomicRC"]), kwargs=dict(workers=1, machines=["rcl"])),
-          threading.Thread(target=job, args=("trace", validate, "trace", traces), kwargs=dict(workers=q))]
+          threading.Thread(target=job, args=("trace", validate, "trace", traces), kwargs=dict(workers=q)),
+          threading.Thread(target=job, args=("h2mc", H2.run_mc2, thorough), kwargs=dict(workers=max(1, q // 2))),
+          threading.Thread(target=job, args=("h2trace", H2.validate2, traces2), kwargs=dict(workers=max(1, q // 2)))]
     if not thorough:
         for name, kw in hp:
             kw = dict(kw)
@@ -956,6 +962,11 @@ def run(replay=None):
                     f"{json.dumps({k: rec[k] for k in ('n', 'nc', 'tr', 'lists') if k in rec})} {bad}")
         else:
             V.ok()
+    # ---- additional family: replay of its histories, notes only
+    out2 = C.pmap(H2.replay2, res["h2mc"].records)
+    V.cov["helpers2"] = H2.judge(V, res["h2mc"], res["h2trace"], traces2, out2)
+    res["h2mc"].records = []
+    dbg("family 2 done", round(time.time() - t0, 1))
     # ---- 3b: trace validation
     acc, rej, rv = res["trace"]
     nacc = 0
@@ -1029,6 +1040,9 @@ def run(replay=None):
         "keys/column names that collide with attribute names of the classes (e.g. 'keys', 'size') are not used",
         "text output is compared after parsing DataFrame.to_string(); CSV/file export of the RowCollector is read back at the end of each recorded trace",
         "private-state projection of the tracer (_keys, _data, column attributes) is trusted for drift detection only",
+        "coverage.helpers2 (CachedFunction, Stopwatch, ProgressBar, NormalizeData; spec/Helpers2*.tla) is growth of the specification beyond "
+        "the property: its disagreements are notes, its counts are not included in states/transitions/evaluations above; time is an integer "
+        "clock substituted for the module `time` inside scinumtools.stopwatch / progress_bar",
     ]
     C.cleanup(PID)
     return V.finish()
